@@ -294,6 +294,21 @@ FIXED_FORMS = [
     ('missing-remote-symbol', 'd?:nosuchkey', None),
     ('call-non-callable', 'f([;:a;1])', None),
 ]
+# a remote function is looked up (proxy), the name is rebound on the server to a function of another arity, and looked up
+# and called again: the second proxy must be a proxy of the new function (all ordered pairs of arities 1, 2, 3)
+_AR = {1: ('{x+1}', '4'), 2: ('{x-y}', '4;1'), 3: ('{x,y,z}', '1;2;3')}
+for _i in _AR:
+    for _j in _AR:
+        if _i != _j:
+            (_bi, _ai), (_bj, _aj) = _AR[_i], _AR[_j]
+            FIXED_FORMS.append((
+                'proxy-after-rebinding-%d-to-%d' % (_i, _j),
+                'f("fn::%s");q::f(:fn);q(%s);f("fn::%s");q::f(:fn);q(%s)' % (_bi, _ai, _bj, _aj),
+                'fn::%s;fn(%s);fn::%s;fn(%s)' % (_bi, _ai, _bj, _aj)))
+            FIXED_FORMS.append((
+                'dict-proxy-after-rebinding-%d-to-%d' % (_i, _j),
+                'f("fn::%s");q::d?:fn;q(%s);f("fn::%s");q::d?:fn;q(%s)' % (_bi, _ai, _bj, _aj),
+                'fn::%s;fn(%s);fn::%s;fn(%s)' % (_bi, _ai, _bj, _aj)))
 
 
 def judge_pair(name, ctext, ttext, got, exp):
